@@ -125,6 +125,8 @@ impl PaddingFactory {
                     sizes.push(min_val as i32);
                 } else {
                     let size = rand::random_range(min_val..=max_val);
+                    #[cfg(feature = "verif")]
+                    let size = crate::verif::draw(min_val, max_val).unwrap_or(size);
                     sizes.push(size as i32);
                 }
             }
